@@ -76,6 +76,10 @@ def project(case):
                 evs.append(("db", "OBegin", ok))
                 if lost:
                     continue
+            elif j["kind"] in ("QUERY", "STMT_QUERY") and sql.lstrip().upper().startswith(("UPDATE", "DELETE", "INSERT")):
+                # a DML text sent through the query path is the business statement all the same
+                sid = next((n for lo, hi, n in ranges if lo < e["seq"] <= hi), 99)
+                evs.append(("db", "OStmt %d" % sid, ok))
             elif j["kind"] in ("QUERY", "STMT_QUERY"):
                 evs.append(("db", "OQuery", ok))
             elif j["kind"] == "EXEC" and sql.strip().upper() == "ROLLBACK":
@@ -242,6 +246,8 @@ def oracle(case, p):
             nf = sum(1 for x in evs if x[0] == "rep" and not x[1])
             if not 1 <= nf <= 5 or any(x[0] == "rep" and x[1] for x in evs):
                 out.append("registered branch not reported PhaseOne_Failed within 1..5 attempts (%d failed-status reports)" % nf)
+            elif nf < 5 and not any(x[0] == "rep" and not x[1] and x[2] for x in evs):
+                out.append("the PhaseOne_Failed report was given up after %d unanswered/refused attempt(s) although 5 are allowed" % nf)
     elif p["committed"] and granted:
         nd = sum(1 for x in evs if x[0] == "rep" and x[1])
         if not 1 <= nd <= 5 or any(x[0] == "rep" and not x[1] for x in evs):
